@@ -42,7 +42,37 @@ pub static SPAWN_EVENTS: AtomicUsize = AtomicUsize::new(0);
 pub static POOL_EXITS: AtomicUsize = AtomicUsize::new(0);
 static MONITOR: std::sync::OnceLock<thread::Thread> = std::sync::OnceLock::new();
 pub fn set_monitor_thread() { let _ = MONITOR.set(thread::current()); }
-pub fn on_exit_event() { POOL_EXITS.fetch_add(1, Ordering::SeqCst); if let Some(m) = MONITOR.get() { m.unpark(); } }
+/// Pool threads that have reported their exit (the report is made by the dying thread itself, while it is still unwinding):
+/// kernel thread id and start time, so that "that thread is gone" can be read off /proc exactly
+pub static DYING: Mutex<Vec<(u32, u64)>> = Mutex::new(Vec::new());
+#[cfg(not(miri))]
+fn own_task() -> Option<(u32, u64)> {
+    let link = std::fs::read_link("/proc/thread-self").ok()?;
+    let tid: u32 = link.file_name()?.to_str()?.parse().ok()?;
+    Some((tid, task_start(tid)?))
+}
+#[cfg(miri)]
+fn own_task() -> Option<(u32, u64)> { None }
+/// Start time of a task of this process (field 22 of its stat file); None if it does not exist or is already a zombie/dead
+pub fn task_start(tid: u32) -> Option<u64> {
+    let stat = std::fs::read_to_string(format!("/proc/self/task/{}/stat", tid)).ok()?;
+    let rest = &stat[stat.rfind(')')? + 1..];
+    let f: Vec<&str> = rest.split_whitespace().collect();
+    if f.is_empty() || f[0] == "Z" || f[0] == "X" { return None; }
+    f.get(19)?.parse().ok()
+}
+/// True once every pool thread that reported its exit has really left the process
+pub fn dying_threads_gone() -> bool {
+    let mut d = match DYING.lock() { Ok(d) => d, Err(_) => return true };
+    d.retain(|(tid, start)| task_start(*tid) == Some(*start));
+    d.is_empty()
+}
+pub fn on_exit_event() {
+    if let Some(t) = own_task() { if let Ok(mut d) = DYING.lock() { d.push(t); } }
+    POOL_EXITS.fetch_add(1, Ordering::SeqCst);
+    if let Some(m) = MONITOR.get() { m.unpark(); }
+    if let Ok(ms) = std::env::var("DH_SELFTEST_SLOW_EXIT_MS") { thread::sleep(Duration::from_millis(ms.parse().unwrap_or(0))); }
+}
 
 #[cfg(feature = "hooks")]
 pub fn live_pool() -> usize { desync::verif::live_pool_threads() }
@@ -263,6 +293,7 @@ pub fn run_program(prog: Program, opts: &Opts, plan: noise::Plan) -> RunResult {
         return RunResult { outcome, violations: v, stats: oracle::RunStats::default(), ctx, diag, plan };
     }
     POOL_OVER.store(0, Ordering::SeqCst);
+    if DYING.lock().map(|d| d.len() > 32).unwrap_or(false) { let _ = dying_threads_gone(); }   // forget threads that are long gone
     let exits0 = POOL_EXITS.load(Ordering::SeqCst);
     POOL_PEAK.store(live_pool(), Ordering::SeqCst);
     POOL_MAX_NOW.store(pool, Ordering::SeqCst);
@@ -410,9 +441,15 @@ pub fn run_program(prog: Program, opts: &Opts, plan: noise::Plan) -> RunResult {
                 }
             }
             if outcome != Outcome::Completed { break; }
-            // the exit hook runs while the thread is still unwinding; the scheduler only sees it as finished a moment later
+            // the exit hook runs while the thread is still unwinding; the scheduler only sees it as finished a moment later.
+            // "Finished" is read off /proc for exactly the threads that reported their exit (kernel thread id and start time recorded
+            // by the dying thread itself). Comparing the number of named pool threads with the hook's counter is not enough: a pool
+            // thread that was spawned but has not named itself yet makes the count come out right while the dying thread still exists.
             if native {
-                let _ = wait_until(native, watchdog, || quiesce::snapshot().map(|s| quiesce::pool_threads(&s) <= live_pool()).unwrap_or(true));
+                match wait_until(native, watchdog, || dying_threads_gone()) {
+                    Wait::Done => {}
+                    _ => { outcome = Outcome::Inconclusive("a pool thread that reported its exit is still listed by the kernel".into()); break; }
+                }
             } else {
                 // No /proc under Miri, and the interpreter needs many scheduling slices to run the dying thread to its very end.
                 // Establish "the thread is finished and has been reaped" explicitly: give it time, then make scheduling calls on a
